@@ -21,6 +21,10 @@ theorem ring_atomic :
     ringLenIsAtomicLoad = true ∧ ringLenOnlyAtomicWrites = true := by
   decide
 
+/-- each method updates the length counter exactly once (its linearization point, inside its critical section). -/
+theorem ring_linearization_points : ringLenAdds = [("Push", 1), ("Pop", 1), ("PopN", 1)] := by
+  decide
+
 /-- registry operations are single critical sections; `add` checks and inserts under one. -/
 theorem registry_atomic :
     registryLockShape = [("Remove", true), ("get", true), ("getByID", true)] ∧
